@@ -685,6 +685,20 @@ class ResourceTasksDistance(ResourceConstraint):
 #
 # SelectWorker specific constraints
 #
+def _if_selections_in_use(select_workers_1, select_workers_2, assertion):
+    """The selection of an optional task that is not scheduled binds nothing: the assertion
+    between two selections only applies if the tasks they are assigned to are scheduled."""
+    scheduled = [
+        select_workers._required_by._scheduled
+        for select_workers in (select_workers_1, select_workers_2)
+        if select_workers._required_by is not None
+        and select_workers._required_by.optional
+    ]
+    if scheduled:
+        return z3.Implies(z3.And(scheduled), assertion)
+    return assertion
+
+
 class SameWorkers(ResourceConstraint):
     """
     This constraint ensures that workers selected by two SelectWorker instances are the same.
@@ -705,8 +719,12 @@ class SameWorkers(ResourceConstraint):
         for res_work_1 in self.select_workers_1._selection_dict:
             if res_work_1 in self.select_workers_2._selection_dict:
                 self.set_z3_assertions(
-                    self.select_workers_1._selection_dict[res_work_1]
-                    == self.select_workers_2._selection_dict[res_work_1]
+                    _if_selections_in_use(
+                        self.select_workers_1,
+                        self.select_workers_2,
+                        self.select_workers_1._selection_dict[res_work_1]
+                        == self.select_workers_2._selection_dict[res_work_1],
+                    )
                 )
 
 
@@ -732,10 +750,14 @@ class DistinctWorkers(ResourceConstraint):
             if res_work_1 in self.select_workers_2._selection_dict:
                 # a common worker cannot be selected by both
                 self.set_z3_assertions(
-                    z3.Not(
-                        z3.And(
-                            self.select_workers_1._selection_dict[res_work_1],
-                            self.select_workers_2._selection_dict[res_work_1],
-                        )
+                    _if_selections_in_use(
+                        self.select_workers_1,
+                        self.select_workers_2,
+                        z3.Not(
+                            z3.And(
+                                self.select_workers_1._selection_dict[res_work_1],
+                                self.select_workers_2._selection_dict[res_work_1],
+                            )
+                        ),
                     )
                 )
